@@ -100,10 +100,13 @@ def cases(ctx):
     for shape, lty, rty in (("dd", "Decimal", "Decimal"), ("di", "Decimal", "u8"), ("id", "i64", "Decimal"), ("di", "Decimal", "i128"), ("id", "u16", "Decimal"), ("ii", "u64", "u64"), ("ii", "i8", "i8")):
         out.append({"id": "div_rounded|reject n>18|%s/%s" % (lty, rty), "kind": "reject", "lty": lty, "rty": rty, "weight": 15})
     out.append({"id": "mul_rounded|reject n>18", "kind": "rejectm", "weight": 15})
+    out += rounding_kernel_obligations(ctx)
     return out
 
 
 def run_case(ctx, case):
+    if case.get("delegate"):
+        return run_delegated(ctx, case)
     prog = ctx.program("dev")
     res = Res(case["id"])
     kind = case["kind"]
@@ -300,6 +303,8 @@ def run_quantize(ctx, prog, res, case):
 
 
 def replay(ctx, native, v):
+    if v.get("info", {}).get("delegate"):
+        return replay_delegated(ctx, native, v)
     info = v["info"]
     kind = info.get("kind")
     x, y = v["inputs"]["x"], v["inputs"]["y"]
